@@ -60,14 +60,25 @@ def str2msg(text):
     calling check_msgdict().
     """
     words = text.split()
+    if not words:
+        raise ValueError('string is empty')
+
     type_ = words[0]
     args = words[1:]
+
+    if type_ not in SPEC_BY_TYPE:
+        raise ValueError(f'unknown message type {type_!r}')
+    attribute_names = SPEC_BY_TYPE[type_]['attribute_names']
 
     msg = {}
 
     for arg in args:
         name, value = arg.split('=', 1)
-        if name == 'time':
+        if name == 'type' or name not in attribute_names:
+            # (Also keeps words like 'skip_checks=1' from reaching the
+            # Message constructor as keyword arguments.)
+            raise ValueError(f'{type_} message has no attribute {name}')
+        elif name == 'time':
             value = _parse_time(value)
         elif name == 'data':
             value = _parse_data(value)
